@@ -412,7 +412,10 @@ pub fn run(args: &Args, rep: &mut Report) {
         return;
     }
     // client-emitted commands first (needs the loopback recorder), then the generated families
-    crate::client::run(args, rep);
+    // `--opt small=1` (interpreter runs, Miri): no sockets, generated families only
+    if !args.opts.contains_key("small") {
+        crate::client::run(args, rep);
+    }
     let max_cases: u64 = args.opt_u64("cases", if args.tier.is_thorough() { 5_000_000 } else { 40_000 });
     let mut i = 0u64;
     while i < max_cases && args.time_left() {
